@@ -609,8 +609,32 @@ def _db_get_tree(it, st, args, ctx):
         root = it.load(st, root)
     if isinstance(root, Agg) and root.ty == 'HashVal':
         root = root.fields[0]
+    if isinstance(root, Agg) and root.ty in ('array', 'bytes') and len(root.fields) == 32:
+        root = simp(z3.Concat(*root.fields))
+    root_s = simp(root)
+    if z3.is_bv_value(root_s) and root_s.as_long() == 0:
+        return mk_some(Opaque('Tree', TreeModel(None, (), {})))  # the all-zero root is the empty tree
     for (r, tm) in getattr(it, 'roots', []):
         if r.eq(root):
             st.events.append(('get_tree', r))
             return mk_some(Opaque('Tree', tm))
     raise Unsupported('Database::get_tree of a root no tree of this run hashes to: %s' % root.sexpr()[:80])
+
+
+@summary(r'^(novasmt::)?Database::<.*>::new$')
+def _db_new(it, st, args, ctx):
+    return Opaque('Database')
+
+
+@summary(r'^<(novasmt::)?InMemoryCas as Default>::default$')
+def _cas_default(it, st, args, ctx):
+    return Opaque('InMemoryCas')
+
+
+@summary(r'^(novasmt::)?Tree::<.*>::get_with_proof$')
+def _tree_get_with_proof(it, st, args, ctx):
+    t = deref(it, st, args[0])
+    k = key_term(it, st, args[1])
+    v = tree_get(it, st, t.data, k)
+    st.events.append(('get_with_proof', t.data.base, k))
+    return Agg('tuple', [v, Opaque('FullProof', (t.data.base, k))])
